@@ -23,3 +23,22 @@ package observations
 //@   ensures [sampling-prob] res.SamplingProb == cfg.SamplingProb
 //@   ensures [service-name] res.ServiceName == cfg.ServiceName
 //@   modifies nothing
+
+// ---- C15: the loaded form of the two observation sections: every setting the saved form carries is read back,
+// whether or not the feature it configures is switched on ----
+//@ extern multiaddr.NewMultiaddr(s)
+//@   ensures res == libfn("multiaddr.NewMultiaddr", 0, s)
+//@ func (cfg *MetricsConfig) loadMetricsOptions
+//@   property C15
+//@   requires cfg != nil && jcfg != nil
+//@   ensures [enable-stats] err == nil ==> cfg.EnableStats == jcfg.EnableStats
+//@   ensures [prometheus-endpoint] err == nil ==> cfg.PrometheusEndpoint == libfn("multiaddr.NewMultiaddr", 0, jcfg.PrometheusEndpoint)
+//@   ensures [reporting-interval] err == nil ==> cfg.ReportingInterval == ite(jcfg.ReportingInterval != "", parseDur(jcfg.ReportingInterval), old(cfg.ReportingInterval))
+//@   modifies *
+//@ func (cfg *TracingConfig) loadTracingOptions
+//@   property C15
+//@   requires cfg != nil && jcfg != nil
+//@   ensures [enable-tracing] err == nil ==> cfg.EnableTracing == jcfg.EnableTracing
+//@   ensures [jaeger-agent-endpoint] err == nil ==> cfg.JaegerAgentEndpoint == libfn("multiaddr.NewMultiaddr", 0, jcfg.JaegerAgentEndpoint)
+//@   ensures [sampling-prob-and-service-name] err == nil ==> cfg.SamplingProb == jcfg.SamplingProb && cfg.ServiceName == jcfg.ServiceName
+//@   modifies heap(TracingConfig)
